@@ -1,9 +1,122 @@
-(* C13 *)
+(* C13  Same seed => same output; the stream of RandomGenerator is RANLUX (ranlxd2).
+   Only statements, each closed by [exact] of a lemma of Cxx/C13_Proofs.v / Cxx/C13_Exact.v.
+   Numerators: a double d of the class is modelled by the integer d * 2^48 (W = 2^48).
+   NOT covered here: "two whole-program runs write byte-identical snapshots" (whole-binary comparison). *)
 From Coq Require Import ZArith List Bool.
-From CMI Require Import Cxx.C13_Defs Cxx.C13_Proofs.
+From CMI Require Import Cxx.C13_Defs Cxx.C13_Proofs Cxx.C13_Exact.
 Import ListNotations.
 Local Open Scope Z_scope.
 
+(* (a) invariant: set_seed establishes it for EVERY seed (any 64-bit value), every draw keeps it:
+   12 words below 2^48, carry 0 or 2^-48, indices in range, jr = ir_old + 7 mod 12, luxury >= 12 *)
+Theorem C13_invariant : (forall seed, wf (set_seed seed)) /\ (forall s, wf s -> wf (snd (next s)) /\ pr (snd (next s)) = pr s)
+                        /\ (forall seed n, wf (after n (set_seed seed))).
+Proof. exact (conj set_seed_wf (conj (fun s H => conj (next_wf s H) (next_pr s H)) (fun seed n => after_wf n _ (set_seed_wf seed)))). Qed.
+Print Assumptions C13_invariant.
+
+(* (b) range: for every seed and every stream position the returned numerator is in [0, 2^48), i.e. the double is in
+   [0, 1 - 2^-48]: never 1, so log(1-u) is finite; u = 0 is possible, so -log(u) can be +inf but never negative or NaN *)
+Theorem C13_range : forall seed n, 0 <= nth_output seed n < W.
+Proof. exact range_thm. Qed.
+Print Assumptions C13_range.
+
+Theorem C13_integer_range : forall s, wf s -> 0 <= fst (next_integer s) < 2147483648.
+Proof. exact integer_range. Qed.
+Print Assumptions C13_integer_range.
+
+(* (c) refinement 1: the unrolled block of increment_state is 12 plain loop bodies *)
+Theorem C13_block_is_12_steps : forall l, locwf l -> lir l = 0 -> ljr l = 7 -> block l = iter 12 body l.
+Proof. exact block_eq. Qed.
+Print Assumptions C13_block_is_12_steps.
+
+(* (c) refinement 2: increment_state (three loops, fuel never exhausted) is exactly _pr plain bodies, for every luxury >= 12 *)
+Theorem C13_increment_is_pr_steps : forall s, wf s -> ir s = ir_old s ->
+  increment_state s = rg_of (iter (Z.to_nat (pr s)) body (loc_of s)) (pr s).
+Proof. exact increment_refines. Qed.
+Print Assumptions C13_increment_is_pr_steps.
+
+(* (c) refinement 3: one body on the circular buffer is one subtract-with-borrow step (base 2^48, lags 12 and 5) on the
+   history read from position ir *)
+Theorem C13_body_is_swb : forall l, locinv l -> window (body l) = swb (window l).
+Proof. exact body_swb. Qed.
+Print Assumptions C13_body_is_swb.
+
+(* (c) refinement 4: the whole stream of get_uniform_random_double after set_seed(seed), for every seed and every length, is
+   the six-line reference: shift-register seeding, then repeatedly 397 swb steps and the 12 history values oldest first *)
+Theorem C13_stream_is_ranlxd2 : forall n seed, stream n (set_seed seed) = lux_stream 397 n (lux_init seed).
+Proof. exact stream_spec. Qed.
+Print Assumptions C13_stream_is_ranlxd2.
+
+Theorem C13_stream_refines_from_any_state : forall n s p, wf s -> pr s = Z.of_nat p -> stream n s = lux_stream p n (abs s).
+Proof. exact stream_lux. Qed.
+Print Assumptions C13_stream_refines_from_any_state.
+
+(* (d) seeds: 0 is 1; only seed mod 2^31 matters; the seed words determine the seed on [1,2^31) *)
+Theorem C13_seed_zero_is_one : set_seed 0 = set_seed 1.
+Proof. exact seed_zero_is_one. Qed.
+Print Assumptions C13_seed_zero_is_one.
+
+Theorem C13_seed_mod_2_31 : forall s1 s2, s1 <> 0 -> s2 <> 0 -> s1 mod 2147483648 = s2 mod 2147483648 -> set_seed s1 = set_seed s2.
+Proof. exact seed_mod. Qed.
+Print Assumptions C13_seed_mod_2_31.
+
+Theorem C13_seeding_injective : forall s1 s2, 1 <= s1 < 2147483648 -> 1 <= s2 < 2147483648 ->
+  xdbl (set_seed s1) = xdbl (set_seed s2) -> s1 = s2.
+Proof. exact seeding_injective. Qed.
+Print Assumptions C13_seeding_injective.
+
+(* (d) different seeds give different streams, full strength: two seeds in [1,2^31) whose first 24 values agree are equal *)
+Theorem C13_streams_differ : forall s1 s2, 1 <= s1 < 2147483648 -> 1 <= s2 < 2147483648 ->
+  stream 24 (set_seed s1) = stream 24 (set_seed s2) -> s1 = s2.
+Proof. exact streams_differ. Qed.
+Print Assumptions C13_streams_differ.
+
+(* (d) the design sketch's "step_injective" is false: the transition on well-formed states is not injective
+   ((x[ir], carry) = (5,0) and (4,1) have the same successor); streams_differ does not rely on it *)
+Theorem C13_step_injective_refuted : exists l1 l2, locinv l1 /\ locinv l2 /\ l1 <> l2 /\ body l1 = body l2.
+Proof. exact step_not_injective. Qed.
+Print Assumptions C13_step_injective_refuted.
+
+(* the arithmetic fact behind streams_differ: a swb step multiplies the Marsaglia-Zaman number by W^-1 modulo W^12 - W^5 + 1 *)
+Theorem C13_swb_is_lcg : forall st, hwf st -> W * mznum (swb st) = mznum st + MODULUS * zn (fst (swb st)) 11.
+Proof. exact mznum_swb. Qed.
+Print Assumptions C13_swb_is_lcg.
+
+(* (e) restart: the words read back in the order written give the same object, hence the same continued stream *)
 Theorem C13_restart_identity : forall s, length (xdbl s) = 12%nat -> restore (dump s) = Some s.
 Proof. exact restart_roundtrip. Qed.
 Print Assumptions C13_restart_identity.
+
+Theorem C13_restart_continues : forall s s' n, wf s -> restore (dump s) = Some s' -> s' = s /\ stream n s' = stream n s.
+Proof. exact restart_continues. Qed.
+Print Assumptions C13_restart_continues.
+
+(* exactness: every value computed by a loop body or a RANLUX_STEP (operands, differences, corrected values) is a numerator of
+   magnitude <= 2^48, and such a numerator over 2^48 is a binary64 number: the integer model is the double computation *)
+Theorem C13_intermediates_bounded : forall l, locwf l ->
+  Forall exact48 (body_ivals l) /\
+  (forall i1 i2, i2 = (lir l + 1) mod 12 -> i1 = (ljr l + 1) mod 12 -> i1 <> lir l -> Forall exact48 (rs_ivals (lx l) (pend l) i1 i2)).
+Proof. exact (fun l H => conj (body_exact l H) (fun i1 i2 H2 H1 Hne => proj1 (rs_exact l i1 i2 H H2 H1 Hne))). Qed.
+Print Assumptions C13_intermediates_bounded.
+
+Theorem C13_exact_in_binary64 : forall l, locwf l ->
+  Forall (fun v => b64 (real_of v)) (body_ivals l) /\
+  (forall i1 i2, i2 = (lir l + 1) mod 12 -> i1 = (ljr l + 1) mod 12 -> i1 <> lir l ->
+     Forall (fun v => b64 (real_of v)) (rs_ivals (lx l) (pend l) i1 i2)).
+Proof. exact exact_in_binary64. Qed.
+Print Assumptions C13_exact_in_binary64.
+
+Theorem C13_seed_sums_exact : forall m r, reginv r -> (m <= 48)%nat ->
+  0 <= fold_left wacc (lfsr m r) 0 < 2 ^ Z.of_nat m /\ 2 ^ Z.of_nat m <= W.
+Proof. exact seed_partial_exact. Qed.
+Print Assumptions C13_seed_sums_exact.
+
+(* set_seed's loops (circular 31-bit buffer, 12 x 48 inner steps) compute the shift-register spec *)
+Theorem C13_seeding_is_lfsr : forall seed, abs (set_seed seed) = lux_init seed.
+Proof. exact set_seed_spec. Qed.
+Print Assumptions C13_seeding_is_lfsr.
+
+(* the executable well-formedness test the model driver evaluates on every state it visits decides the invariant *)
+Theorem C13_wfb_sound : forall s, wfb s = true -> wf s.
+Proof. exact wfb_sound. Qed.
+Print Assumptions C13_wfb_sound.
